@@ -21,13 +21,16 @@ TStep ==
          r == CASE e.op = "new"    -> [s |-> NewCache(e.limit, e.unit), res |-> TRUE, ev |-> <<>>]
                 [] e.op = "put"    -> LPut(c, e.k, e.v)
                 [] e.op = "get"    -> LGet(c, e.k)
+                [] e.op = "getn"   -> LGet(c, e.k)          \* repeated Gets of one key move it once
+                [] e.op = "fill"   -> LFill(c, e.k, e.n)
                 [] e.op = "has"    -> LHas(c, e.k)
                 [] e.op = "remove" -> LRemove(c, e.k)
                 [] e.op = "clear"  -> LClear(c)
      IN  /\ e.panic = ""
          /\ c' = r.s
-         /\ (e.op \in {"put", "has", "remove"} => e.res = r.res)
-         /\ (e.op = "get" => e.rv = r.res)
+         /\ (e.op \in {"put", "has", "remove", "fill"} => e.res = r.res)
+         /\ (e.op \in {"get", "getn"} => e.rv = r.res)
+         /\ (e.op = "getn" => e.res = TRUE)
          /\ (IF e.op = "clear"
                THEN SeqSet(e.evs) = ClearEvs(c) /\ Len(e.evs) = CLen(c)
                ELSE e.evs = r.ev)
